@@ -15,7 +15,9 @@ import (
 	"github.com/thanos-community/promql-engine/execution/parse"
 )
 
-var InvalidSample = promql.Sample{Point: promql.Point{T: -1, V: 0}}
+// InvalidSample is returned by a function call that has no output. Its timestamp lies outside
+// of the range of step timestamps, so that it cannot be confused with a result.
+var InvalidSample = promql.Sample{Point: promql.Point{T: math.MinInt64, V: 0}}
 
 type FunctionArgs struct {
 	Labels       labels.Labels
